@@ -60,7 +60,9 @@ AllowedHere(p, e) ==
             THEN \* exact counts are taken by the controller while every thread is parked; a count taken
                  \* by iterating beside running writers is not a snapshot (entries inserted and evicted
                  \* during the walk can both be seen), so it is only required to stay bounded
-                 IF "exact" \in DOMAIN e /\ e.exact THEN e.count <= e.cap + e.wlog + e.threads
+                 \* (+ 1: the record that maintenance has taken from the queue and not yet applied; it
+                 \* stands between two accesses to the map, switch point m.w2)
+                 IF "exact" \in DOMAIN e /\ e.exact THEN e.count <= e.cap + e.wlog + e.threads + 1
                  ELSE e.count <= e.cap + 2 * (e.wlog + e.threads)
             ELSE e.count <= e.cap
       [] p = "C03" -> /\ e.ev = "Refill" => e.kept = e.want
